@@ -2,7 +2,7 @@ from .base import *
 
 ID = 'C17'
 THEOREMS = ['C17_truncate', 'C17_truncate_strict', 'C17_select_cone', 'C17_cone_excludes_zero', 'C17_scale_all',
-            'C17_rotate_all', 'C17_total', 'C17_dominant', 'C17_conversions', 'C17_total_value', 'C17_rsum_def', 'C17_cone_pred_unfold', 'C17_cone_signed_cos']
+            'C17_rotate_all', 'C17_total', 'C17_dominant', 'C17_conversions', 'C17_total_value', 'C17_rsum_def', 'C17_cone_pred_unfold', 'C17_cone_signed_cos', 'C17_cone_decides', 'C17_acos_acc_def', 'C17_cone_premises_inhabited']
 OWNED = {'CNew', 'CDefault', 'CFrom', 'CFromIter', 'CLen', 'CIsEmpty', 'CIter', 'CIndex', 'CIntoIter', 'CIntoIterRef', 'CAsRefVec',
          'CAsRefSlice', 'CTruncate', 'CCone', 'CTotal', 'CDominant', 'CScaleAll', 'CRotateAll'}
 RULE = ('collections of 0..64 members from the C01 domain with duplicates, zero magnitudes, magnitude ties and whole-turn twins; thresholds equal to member magnitudes +-ulp (strictness hit exactly), '
@@ -11,7 +11,7 @@ RULE = ('collections of 0..64 members from the C01 domain with duplicates, zero 
         'non-trivial = owned op result differs from its operands')
 TRUSTED = TRUSTED_COMMON + ['Vec / iterator adaptors (filter, map, cloned, collect, sum, max_by) are modelled by list filter / map / fold_left, not verified']
 ASSUMPTIONS = ASSUME_COMMON + ['select_cone uses libm cos and acos: its filter structure is proved for every libm; the numeric meaning of the predicate is decided by the mpmath reference within a 1e-7 rad band around the half-angle']
-S3_LEGS = ["cone predicate: C17_cone_signed_cos shows it equals a comparison of signed cosines under cos_acc; its reading as 'unsigned angle <= half-angle' is decided numerically by predicate cone_ref (band 1e-7 rad)"]
+S3_LEGS = ["cone predicate: C17_cone_signed_cos shows it equals a comparison of signed cosines under cos_acc; C17_cone_decides adds the acos step under acos_acc (kept => cos(half+ua) - e <= cos(unsigned angle), dropped => cos(unsigned angle) < cos(half-ua) + e); in ANGLE units near 0 and pi the cosine form is weaker than the 1e-7 rad band of predicate cone_ref, which decides every generated case"]
 
 def members(P, r, n):
     regs = []
@@ -127,5 +127,5 @@ def generate(rng, tier):
 LEVEL_TEXT = ('Kernel-checked theorems about the model (Vec as list): truncate IS the order-preserving filter "threshold < magnitude" (strict, stated over the reals for finite values); select_cone IS an order-preserving filter whose predicate '
               'rejects every zero-magnitude member and every zero axis (for every libm); scale_all / rotate_all ARE element-wise maps preserving length and position; total_magnitude is the left fold from -0.0 and (C17_total_value) the sum of the member magnitudes within sum*((1+2^-53)^n - 1) + n*2^-1075*(1+2^-53)^n for non-negative magnitudes; '
               'dominant is None exactly when empty and otherwise a member with no strictly larger fellow; conversions, iteration and indexing are the identity on contents. '
-              'C17_cone_signed_cos (S2, REAL pi): the signed cosine that select_cone feeds to acos is the cosine of the real direction difference between member and axis within 2.1u + 2.01e-10 (cos accurate to u); the final acos comparison is decided against an mpmath reference (S3).')
+              'C17_cone_signed_cos (S2, REAL pi): the signed cosine that select_cone feeds to acos is the cosine of the real direction difference between member and axis within 2.1u + 2.01e-10 (cos accurate to u); the final acos comparison is decided against an mpmath reference (S3). C17_cone_decides (ConeDecide.v): with acos accurate to ua on [-1,1] (explicit premise acos_acc, monitored per recorded call, jointly satisfiable with cos_acc: C17_cone_premises_inhabited) a KEPT member has cos(half+ua) - e <= cos(unsigned angle to the axis), a DROPPED member has cos(unsigned angle) < cos(half-ua) + e, e = 2.1u + 2.01e-10; nothing is kept when half+ua < 0, nothing dropped when half-ua >= pi.')
 LEVEL_NOTE = ('Trusted: Coq kernel + vm_compute; 4 standard-library axioms; plus the primitive-integer axioms (PrimInt63.*, Uint63.*_spec) of the Interval tactic for C17_cone_signed_cos; hand-written model validated bit-for-bit each run (including std iterator plumbing, which is modelled not verified); libm only as the parameter L.')
